@@ -9,7 +9,7 @@
    [enc] is the output charset, universally quantified (bk_enc in the runs). *)
 From Coq Require Import ZArith List String Ascii Bool NArith.
 From Verif Require Import Base.Res Spec.PDP11 Spec.Arith Spec.DataSpec Model.Insns Model.Directives Model.Asm Model.AsmT Model.AsmRel
-  Proofs.InsnsMain Proofs.AsmP Proofs.AsmSem Proofs.AsmTotal Proofs.AsmSized Proofs.AsmMeta Proofs.AsmLaws Proofs.AsmMove Proofs.AsmSup Proofs.AsmRelP.
+  Proofs.InsnsMain Proofs.AsmP Proofs.AsmSem Proofs.AsmTotal Proofs.AsmSized Proofs.AsmMeta Proofs.AsmLaws Proofs.AsmMove Proofs.AsmSup Proofs.AsmRelP Proofs.AsmLawSound Proofs.AsmLink.
 From Verif Require Model.Rad50.
 Import ListNotations.
 Notation length := Datatypes.length.
@@ -186,6 +186,42 @@ Theorem R_supported : forall enc p, supported p = true -> forall why, assemble e
 Proof. exact supported_thm. Qed.
 Print Assumptions R_supported.
 
+(* R_law_sound: the bridge between the law theorems and their correspondence streams.  [law_pair l p] are the two
+   programs the stream compares for the law l at its positions (Model/AsmT.v: move the definition at i to j, write
+   out the repeat at i, insert_file at i as .byte, End before k), [law_hyps l p] is the boolean the stream evaluates
+   before judging.  The hypotheses of R_move_def / R_repeat_unroll / R_insert_is_bytes / R_end_cuts follow from it,
+   for forward and backward moves and for a literal count in any spelling; so the two programs have the same
+   outcome, and bit 4 of Run/RRun.judge_law ("the model violates the law") is never set. *)
+Theorem R_law_sound : forall enc l p a b, law_pair l p = Some (a, b) -> law_hyps l p = true ->
+  same_outcome (assemble enc a) (assemble enc b).
+Proof. exact law_sound. Qed.
+Print Assumptions R_law_sound.
+
+Theorem R_law_sound_bool : forall enc l p a b, law_pair l p = Some (a, b) -> law_hyps l p = true ->
+  res_same (assemble enc a) (assemble enc b) = true.
+Proof. exact law_sound_bool. Qed.
+Print Assumptions R_law_sound_bool.
+
+(* ---- several files given to the linker ------------------------------------------------------------------------
+   [link f1 rest] (Model/AsmT.v): the first file up to its End, then every further file (file id, statements) as a
+   block with its own names that shares -- and may fix -- the link base (Include false; compile_and_link_files).
+   R_link_is_concat: the placed statements are the files' blocks one after the other; block k is the flattening of
+   file k up to that file's End; its statements are evaluated with the names of file k (or of a file it includes:
+   [in_files]), so private names stay private, and exported names are found through f_exports (R_insn_decodes /
+   R_data_exact use sym_of f_exports); the blocks lie at consecutive addresses ([chain]: each statement at the
+   address where the previous one ended, the first block at the base), hence by R_layout the image is the
+   concatenation of the blocks' bytes. *)
+Theorem R_link_is_concat : forall enc f1 rest f, assemble_full enc (link f1 rest) = XOk f ->
+  let q := link f1 rest in
+  let D := collect_defs 0 0 q in let K := collect_keys 0 0 q in let fuel := S (length D) in
+  exists I1 Is a1,
+    f_items f = I1 ++ concat Is /\
+    (exists b1, flat (layout_count enc D K (f_exports f) fuel) false (cut_end f1) (map i_stmt I1) b1) /\
+    in_files 0 (file_ids (cut_end f1)) I1 /\ chain (f_base f) I1 a1 /\
+    Forall2 (block_of enc D K (f_exports f) fuel) rest Is /\ (exists a2, chain a1 (concat Is) a2).
+Proof. exact link_is_concat. Qed.
+Print Assumptions R_link_is_concat.
+
 (* ---- counts through later labels whose dependence on unknown sizes cancels (Model/AsmRel.v) ----------------
    assemble_rel rewrites such .repeat counts to literals (constants over address polynomials, Model/Poly.v) and
    hands the program to assemble.  R_rel_sound_partial: its answer IS an answer of assemble for the rewritten
@@ -245,7 +281,7 @@ Proof. vm_compute. split; reflexivity. Qed.
 
 (* an included file has its own names: `x` of the program and `x` of the file differ, `y` is exported *)
 Example R_example_include :
-  assemble bk_enc [Assign "x" (num 1); Include 1 [Assign "x" (num 2); Label "y"; Extern ["y"]; Byte [Sym "x"]; End; Byte [num 9]];
+  assemble bk_enc [Assign "x" (num 1); Include true 1 [Assign "x" (num 2); Label "y"; Extern ["y"]; Byte [Sym "x"]; End; Byte [num 9]];
                    Byte [Sym "x"]; Even; Word [Sym "y"]] =
   XOk (512, [2; 1; 0; 2], [(KGlobal 1 "y", 512); (KGlobal 0 "x", 1); (KGlobal 1 "x", 2)]).
 Proof. vm_compute. reflexivity. Qed.
@@ -286,6 +322,21 @@ Example R_example_supported :
   supported [Assign "n" (num 3); Blkb (Sym "n"); Repeat (Sym "n") [Word [Dot; Sym "later"]]; Label "later"] = true /\
   supported [Blkb (Sym "l"); Label "l"] = false /\ supported [Repeat (num 2) [Link (num 512)]] = false.
 Proof. vm_compute. repeat split; reflexivity. Qed.
+
+(* the stream's view of the laws: positions, hypotheses, the pair compared *)
+Example R_example_law_pair :
+  let p := [Label "a"; Assign "k" (Bin BAdd (Sym "b") (num 1)); Word [Sym "k"]; Label "b"; Repeat (num 2) [Insn "nop" []]; Insert [1; 2]] in
+  law_hyps (LMove 1 3) p = true /\ law_hyps (LMove 1 0) p = true /\ law_hyps (LUnroll 4) p = true /\ law_hyps (LInsert 5) p = true /\
+  law_pair (LMove 1 3) p = Some (p, [Label "a"; Word [Sym "k"]; Label "b"; Assign "k" (Bin BAdd (Sym "b") (num 1)); Repeat (num 2) [Insn "nop" []]; Insert [1; 2]]) /\
+  law_hyps (LMove 2 0) p = false.
+Proof. vm_compute. repeat split; reflexivity. Qed.
+
+(* two linked files: `x` is private to each, `y` is exported by the second; the second file fixes the shared base *)
+Example R_example_link :
+  assemble bk_enc (link [Assign "x" (num 1); Byte [Sym "x"]; Even; Word [Sym "y"]; End; Byte [num 9]]
+                        [(1%nat, [Link (num 1024); Assign "x" (num 2); Label "y"; Extern ["y"]; Byte [Sym "x"]])]) =
+  XOk (1024, [1; 0; 4; 4; 2], [(KGlobal 1 "y", 1028); (KGlobal 0 "x", 1); (KGlobal 1 "x", 2)]).
+Proof. vm_compute. reflexivity. Qed.
 
 (* refusals are results, not crashes: a cycle, a branch out of reach, a count through a later label *)
 Example R_example_refusals :
